@@ -68,7 +68,19 @@ pub struct FaultReader<'a> {
     pos: usize,
     fail_at: usize,
     kind: io::ErrorKind,
+    after: AfterFault,
     pub errors_returned: Rc<Cell<usize>>,
+}
+
+/// What the reader does once it has reported its error.
+#[derive(Clone, Copy, Debug, PartialEq)]
+pub enum AfterFault {
+    /// keeps failing (never EOF)
+    Forever,
+    /// the failure was transient: the remaining bytes are delivered, then EOF
+    Resume,
+    /// reports end of input from then on
+    Eof,
 }
 
 /// Error kinds a failing reader may report (Interrupted is excluded: it means "retry").
@@ -88,7 +100,11 @@ impl<'a> FaultReader<'a> {
         FaultReader::with_kind(data, fail_at, io::ErrorKind::ConnectionReset)
     }
     pub fn with_kind(data: &'a [u8], fail_at: usize, kind: io::ErrorKind) -> Self {
-        FaultReader { data, pos: 0, fail_at, kind, errors_returned: Rc::new(Cell::new(0)) }
+        FaultReader { data, pos: 0, fail_at, kind, after: AfterFault::Forever, errors_returned: Rc::new(Cell::new(0)) }
+    }
+    pub fn then(mut self, after: AfterFault) -> Self {
+        self.after = after;
+        self
     }
 }
 
@@ -98,10 +114,57 @@ impl<'a> Read for FaultReader<'a> {
             return Ok(0);
         }
         if self.pos >= self.fail_at {
-            self.errors_returned.set(self.errors_returned.get() + 1);
-            return Err(io::Error::new(self.kind, MARKER));
+            let already = self.errors_returned.get();
+            if already == 0 || self.after == AfterFault::Forever {
+                self.errors_returned.set(already + 1);
+                return Err(io::Error::new(self.kind, MARKER));
+            }
+            if self.after == AfterFault::Eof || self.pos >= self.data.len() {
+                return Ok(0);
+            }
+        }
+        if self.pos >= self.data.len() {
+            return Ok(0);
         }
         // one byte per read so that the error position is exact
+        buf[0] = self.data[self.pos];
+        self.pos += 1;
+        Ok(1)
+    }
+}
+
+/// Delivers `data` one byte per read, but reports end of input (Ok(0)) once at
+/// each of the given offsets before going on: a pipe / socket / growing file
+/// whose writer was slower than the reader.
+pub struct PausingReader<'a> {
+    data: &'a [u8],
+    pos: usize,
+    pauses: Vec<usize>,
+    next_pause: usize,
+    pub pauses_reported: usize,
+}
+
+impl<'a> PausingReader<'a> {
+    pub fn new(data: &'a [u8], mut pauses: Vec<usize>) -> Self {
+        pauses.sort();
+        pauses.dedup();
+        PausingReader { data, pos: 0, pauses, next_pause: 0, pauses_reported: 0 }
+    }
+}
+
+impl<'a> Read for PausingReader<'a> {
+    fn read(&mut self, buf: &mut [u8]) -> io::Result<usize> {
+        if buf.is_empty() {
+            return Ok(0);
+        }
+        if self.next_pause < self.pauses.len() && self.pauses[self.next_pause] <= self.pos {
+            self.next_pause += 1;
+            self.pauses_reported += 1;
+            return Ok(0);
+        }
+        if self.pos >= self.data.len() {
+            return Ok(0);
+        }
         buf[0] = self.data[self.pos];
         self.pos += 1;
         Ok(1)
